@@ -10,4 +10,7 @@ INVARIANT OnlyWhenConfigured
 INVARIANT BoundedStaleness
 INVARIANT TickAhead
 INVARIANT PendingOnlyWithCallback
+PROPERTY NoLiveRemoved
+PROPERTY PassIsComplete
+PROPERTY TickerForward
 CHECK_DEADLOCK FALSE
